@@ -143,6 +143,12 @@ fn lsp_cycle_on_disk(main: &std::path::Path) -> Result<usize, String> {
 
 fn check_workspace(src: &Sources, phase: &str, with_base: bool, use_conf: bool, st: &mut Stats) -> Vec<Violation> {
     let mut out = Vec::new();
+    // a program on which the library pipeline itself panics (kind-breaking mutants in the trigger shapes of C01's open
+    // findings) makes every front end crash alike: that is C01's and C04's subject, there is no agreement to judge
+    if matches!(pipeline::run(src, None), Outcome::Panic { .. }) {
+        st.inc("library_panics_left_to_C01");
+        return out;
+    }
     let dir = TempDir::new("c13");
     write_sources(&dir.path, src);
     let main = &src.files[0].0;
